@@ -7,7 +7,7 @@ import GT.Lemmas.RepAutSpec
 
 set_option linter.unusedSectionVars false
 
-namespace GT
+namespace GT.RepW
 
 theorem parseWord_true_append (s t : String) :
     parseWord true (s ++ t) = parseWord true s ++ parseWord true t := by
@@ -216,4 +216,4 @@ theorem automatonAccepted_pairs (ρ : Rep n R) (a : Aut V) (L : Nat) (maxlen : B
           exact accSpec_pairs ρ a _ hL (k + 1) s pairs hs
 
 end Rep
-end GT
+end GT.RepW
